@@ -200,3 +200,7 @@ func init() {
 func init() {
 	claim("C03", "D1", "D2", "D3", "D4", "W3")
 }
+
+func init() {
+	claim("C20", "R1", "R2", "R3", "W1", "M1", "M2", "P1")
+}
